@@ -19,6 +19,7 @@ TABLE = {
     'C10': ('harness.c10', lambda m, tier, only: m.main('C10', tier, only)),
     'C12': ('harness.c10', lambda m, tier, only: m.main('C12', tier, only)),
     'C19': ('harness.c19', lambda m, tier, only: m.main('C19', tier, only)),
+    'C13': ('harness.c13', lambda m, tier, only: m.main('C13', tier, only)),
     'C07': ('harness.c07', lambda m, tier, only: m.main('C07', tier, only)),
 }
 
